@@ -5,6 +5,7 @@ import (
 	"fmt"
 	"math"
 	"reflect"
+	"sort"
 	"strings"
 	"unicode"
 	"unicode/utf8"
@@ -319,6 +320,11 @@ func foldInline(fv reflect.Value, out *model.V, depth int) error {
 		fv = fv.Elem()
 	}
 	if _, ok := poolFolders[fv.Type()]; ok {
+		if (fv.Kind() == reflect.Map || fv.Kind() == reflect.Slice) && fv.IsNil() {
+			// a nil inlined value is "missing": no members, whether or not its
+			// type has a folder (the same rule as for nil pointers and interfaces)
+			return nil
+		}
 		v, _, err := poolFold(fv)
 		if err != nil {
 			return err
@@ -380,6 +386,35 @@ var poolFolders = map[reflect.Type]func(reflect.Value) model.V{
 	reflect.TypeOf(RegT{}): func(rv reflect.Value) model.V {
 		return model.Obj(model.Member{Key: []byte("rx"), Val: model.Int(rv.Field(0).Int())})
 	},
+	reflect.TypeOf(FTags(nil)): func(rv reflect.Value) model.V {
+		parts := make([]string, rv.Len())
+		for i := range parts {
+			parts[i] = rv.Index(i).String()
+		}
+		return model.Str([]byte("tags:" + strings.Join(parts, ",")))
+	},
+	reflect.TypeOf(FCounts(nil)): func(rv reflect.Value) model.V {
+		var sum int64
+		for it := rv.MapRange(); it.Next(); {
+			sum += it.Value().Int()
+		}
+		return model.Obj(
+			model.Member{Key: []byte("n"), Val: model.Int(int64(rv.Len()))},
+			model.Member{Key: []byte("sum"), Val: model.Int(sum)})
+	},
+	reflect.TypeOf(FAnyMap(nil)): func(rv reflect.Value) model.V {
+		var keys []string
+		for it := rv.MapRange(); it.Next(); {
+			keys = append(keys, it.Key().String())
+		}
+		sort.Strings(keys)
+		out := model.V{K: model.VArr, A: []model.V{}}
+		for _, k := range keys {
+			out.A = append(out.A, model.Str([]byte(k)))
+		}
+		return out
+	},
+	reflect.TypeOf(FAnyList(nil)): func(rv reflect.Value) model.V { return model.Int(int64(rv.Len())) },
 }
 
 func poolFold(rv reflect.Value) (model.V, bool, error) {
